@@ -570,7 +570,7 @@ def write_replay(prop, v, idx):
         scn = dict(id="replay", fam=v["cfg"]["fam"], cfg=v["cfg"], drive="replay", script=v["script"])
         if v.get("sched") is not None:
             scn = dict(id="replay", fam=v["cfg"]["fam"], cfg=v["cfg"], drive="threads", scheds=[v["sched"]])
-        if v.get("twosub"):
+        if prop == "C13":
             scn["twosub"] = True
         json.dump(dict(property=prop, scenario=scn, obs=v["obs"], witnesses=v["witnesses"]), f, indent=1)
     return path
